@@ -984,6 +984,35 @@ func c07Lattice() {
 		}
 	}
 	c07FamilyLattice()
+	c07RefLattice()
+}
+
+// c07RefLattice: user-defined references whose document ids / names are prefixes of one another (continued by bytes that
+// sort before and after ':' and '-'), or equal up to letter case: lists that hold several of them, for expressions that ask
+// for one (a look-up in the sorted list with a comparator that is not the order of the sort misses an entry that is there)
+func c07RefLattice() {
+	docs := []string{"spdx-tool", "spdx-tool-1.2", "spdx-tool.1", "spdx-tool1", "spdx-too", "SPDX-TOOL", "spdx-toolA"}
+	names := []string{"acme", "acme-1", "acme.x", "acm", "ACME", "acme0"}
+	var all []string
+	for _, d := range docs {
+		all = append(all, "DocumentRef-"+d+":LicenseRef-acme")
+	}
+	for _, n := range names {
+		all = append(all, "LicenseRef-"+n, "DocumentRef-spdx-tool:LicenseRef-"+n)
+	}
+	rounds := scale(30, 200)
+	for r := 0; r < rounds && !timeUp("c07RefLattice"); r++ {
+		x := all[r%len(all)]
+		pool := []string{x}
+		for len(pool) < 5 {
+			pool = uniqueStrings(append(pool, all[rng.Intn(len(all))]))
+		}
+		pool = append(pool, []string{"MIT", "Zlib", "Apache-2.0"}[r%3])
+		for _, e := range []string{x, x + " OR ISC", "(" + x + " AND " + pool[1] + ") OR " + pool[2]} {
+			count("ref_lattices")
+			latticeCheck(e, pool)
+		}
+	}
 }
 
 // latticeCheck: Satisfies(e, S) for every non-empty subset S of the pool; whenever S satisfies e, every S + {x} must
@@ -1394,6 +1423,123 @@ func init() {
 					if r1, r2 := implSat(e1, l), implSat(e2, l); r1.String() != r2.String() {
 						fail(failure{Stream: "oracle", What: "writing the operands of wide ORs in another order changed Satisfies", Case: &kase{Expr: e1, ExprHex: hx(e1), Allowed: l, Extra: map[string]string{"plain": e2}}, Impl: r1.String(), Expected: r2.String()})
 						break
+					}
+				}
+			}
+		}
+		// EVERY alternative of a product of OR groups, taken as the allowed list: it satisfies the product (as it satisfies the
+		// alternative written out as a conjunction), and with one entry missing it does not — products whose numbers of
+		// alternatives are odd / prime powers, below and above the round limits at which code changes its route (a scan of the
+		// alternatives in chunks loses the remainder; a limit drops the tail)
+		{
+			// (user-defined references: every comparison of two licence ids rebuilds the range table in this library, which makes
+			// a call over a few hundred alternatives take a second)
+			pool := make([]string, 300)
+			for i := range pool {
+				pool[i] = "LicenseRef-p" + itoa(i)
+			}
+			for wi, widths := range [][]int{{3, 3, 3, 3, 3, 3}, {5, 5, 5, 5}, {7, 7, 7}, {3, 5, 7, 11}, {2, 3, 5, 7, 3}, {9, 9, 9, 7}, {257, 17}, {41, 41, 41}} {
+				total, rows := 0, 1
+				for _, wd := range widths {
+					total += wd
+					rows *= wd
+				}
+				if total > len(pool) || timeUp("c10 product rows") {
+					continue
+				}
+				if rows > 6000 && !thorough() && wi%2 != int(seed%2) {
+					continue
+				}
+				ids := append([]string{}, pool...)
+				rng.Shuffle(len(ids), func(i, j int) { ids[i], ids[j] = ids[j], ids[i] })
+				ids = ids[:total]
+				var groups [][]string
+				var gs []string
+				at := 0
+				for _, wd := range widths {
+					grp := append([]string{}, ids[at:at+wd]...)
+					sort.Strings(grp)
+					groups = append(groups, grp)
+					gs = append(gs, "("+strings.Join(grp, " OR ")+")")
+					at += wd
+				}
+				e := strings.Join(gs, " AND ")
+				row := func(r int) []string {
+					var l []string
+					for _, g := range groups {
+						l = append(l, g[r%len(g)])
+						r /= len(g)
+					}
+					return l
+				}
+				var which []int
+				if rows <= 800 {
+					for r := 0; r < rows; r++ {
+						which = append(which, r)
+					}
+				} else {
+					// the corners (first / last operand of every group, in each combination of ends) and a sample
+					which = append(which, 0, rows-1)
+					lastOfAll := 0
+					mul := 1
+					for _, g := range groups {
+						lastOfAll += (len(g) - 1) * mul
+						mul *= len(g)
+					}
+					which = append(which, lastOfAll)
+					for k := 0; k < scale(8, 200); k++ {
+						which = append(which, rng.Intn(rows))
+					}
+				}
+				for _, r := range which {
+					l := row(r)
+					res.Evaluations++
+					count("product_rows")
+					if got := implSat(e, l); got.String() != "true" {
+						fail(failure{Stream: "oracle", What: fmt.Sprintf("an alternative of a product of OR groups (%d alternatives), taken as the allowed list, does not satisfy the product although it satisfies the alternative written as a conjunction", rows), Case: &kase{Expr: e, ExprHex: hx(e), Allowed: l, Extra: map[string]string{"plain": strings.Join(l, " AND ")}}, Impl: got.String(), Expected: "true"})
+						break
+					}
+					if rows <= 800 || r == which[0] {
+						short := l[1:]
+						if got := implSat(e, short); got.String() != "false" {
+							fail(failure{Stream: "oracle", What: "a product of OR groups is satisfied by a list that has no entry for its first group", Case: &kase{Expr: e, ExprHex: hx(e), Allowed: short, Extra: map[string]string{"plain": strings.Join(l, " AND ")}}, Impl: got.String(), Expected: "false"})
+							break
+						}
+					}
+				}
+			}
+		}
+		// every ordered pair of versions of every family: `a+` against [b] as a single term, in parentheses, and doubled with AND /
+		// OR (a short cut for single-licence expressions must decide as the general route does)
+		for _, fam := range tblRanges {
+			var mem []string
+			for _, g := range fam {
+				mem = append(mem, g...)
+			}
+			if len(mem) > 8 && !thorough() {
+				rng.Shuffle(len(mem), func(i, j int) { mem[i], mem[j] = mem[j], mem[i] })
+				mem = mem[:8]
+			}
+			for _, a := range mem {
+				for _, b := range mem {
+					for _, sp := range []string{a + "+", a} {
+						if !implValid(sp) || strings.HasSuffix(a, "+") || strings.HasSuffix(b, "+") {
+							continue
+						}
+						for _, l := range [][]string{{b}, {"Apache-2.0", b, "MIT"}, {b + "+"}} {
+							if !implValid(l[len(l)/2]) {
+								continue
+							}
+							ref := implSat(sp, l).String()
+							res.Evaluations++
+							count("family_pairs_single_vs_compound")
+							for _, e := range []string{"(" + sp + ")", sp + " AND " + sp, sp + " OR " + sp, sp + " AND (" + sp + " OR LicenseRef-none)"} {
+								if r := implSat(e, l); r.String() != ref {
+									fail(failure{Stream: "oracle", What: "a single term and the same term doubled / parenthesised give different results", Case: &kase{Expr: e, ExprHex: hx(e), Allowed: l, Extra: map[string]string{"plain": sp}}, Impl: r.String(), Expected: ref})
+									break
+								}
+							}
+						}
 					}
 				}
 			}
